@@ -309,15 +309,20 @@ func cmdCheck(args []string) int {
 			fmt.Fprintf(os.Stderr, "cannot load witness %s: %v\n", path, err)
 			return 2
 		}
-		r, err := executeSchedule(&rf.Schedule, *prop, &KnownFindings{}, false)
+		r, err := executeSchedule(&rf.Schedule, *prop, kf, false)
 		if err != nil {
 			fmt.Fprintln(os.Stderr, err)
 			return 2
 		}
-		still := false
-		for _, v := range r.Viols {
-			if v.Clause == e.Clause {
-				still = true
+		// open entry: still violating iff the run hit that very finding; fixed entry: regressed iff any
+		// violation of its clause remains that no open finding excuses
+		still := r.Stats.KnownHits[e.ID] > 0
+		if e.Status == "fixed" {
+			still = false
+			for _, v := range r.Viols {
+				if v.Clause == e.Clause {
+					still = true
+				}
 			}
 		}
 		switch {
@@ -326,7 +331,7 @@ func cmdCheck(args []string) int {
 			witness[e.ID] = "still-violating"
 		case e.Status == "open":
 			witness[e.ID] = "witness passes (finding may be marked fixed)"
-		case e.Status == "fixed" && len(r.Viols) > 0:
+		case e.Status == "fixed" && still:
 			witness[e.ID] = "REGRESSED"
 			violLines = append(violLines, fmt.Sprintf("VIOLATION property=%s replay=%s", *prop, path))
 			exit = 1
@@ -721,4 +726,16 @@ func init() {
 	expectedProbes["C06"] = []string{"c06_slash_with_stake", "c06_multi_asset_validator", "c06_full_slash", "c06_redistribution_on_destination", "c06_multi_slash_step"}
 	expectedProbes["C07"] = []string{"c07_unbonding_slashed", "c07_redelegation_slashed", "c07_bucket_with_several_validators_or_denoms", "c07_slash_at_completion_instant", "c07_merged_sources", "c07_destination_emptied"}
 	expectedProbes["C08"] = []string{"c08_slash_with_pending_redelegations", "c08_destination_emptied"}
+}
+
+func init() {
+	monitorRegistry["C15"] = func(s *Schedule) []Monitor { return []Monitor{newMonC15()} }
+	nontrivialRule["C15"] = "at least one redelegation succeeded, or an onward hop was attempted while an entry into its source was pending"
+	expectedProbes["C15"] = []string{"c15_into_existing_position", "c15_into_new_position", "c15_full_balance", "c15_fan_in_same_block", "c15_repeated_same_block", "c15_hop_attempt_while_pending", "c15_matured", "c15_matured_at_boundary", "c15_completion_equals_blocktime"}
+}
+
+func init() {
+	monitorRegistry["C20"] = func(s *Schedule) []Monitor { return []Monitor{newMonC20()} }
+	nontrivialRule["C20"] = "queries were compared in a state with at least one delegation or with an unbonding bucket holding several entries"
+	expectedProbes["C20"] = []string{"c20_bucket_with_several_entries", "c20_balance_plus_one_accepted"}
 }
